@@ -143,6 +143,9 @@ func Applicable(kind NodeKind, isProp bool, rules []RuleAtom) (accept, judged bo
 		if o.Variant == "disordered-set" {
 			return false, true, "paired bounds out of order inside an or rule set"
 		}
+		if o.Variant == "ref-optional-set" {
+			return false, true, "optional inside an or rule set"
+		}
 		if o.Variant == "format-with-length-set" {
 			return false, true, "format type next to a length rule inside an or rule set"
 		}
